@@ -161,6 +161,11 @@ pub fn panic_catcher_disable() {
     PANIC_CATCHER_ENABLED.with(|b| b.set(false));
 }
 
+#[cfg(wirefilter_verif)]
+pub(crate) fn verif_catcher_level() -> u64 {
+    PANIC_CATCHER_LEVEL.with(|b| b.get())
+}
+
 #[cfg(test)]
 mod panic_test {
     use super::*;
